@@ -267,7 +267,7 @@ func deBruijn(alpha string, order int) string {
 
 func run(c *enum.Ctx) {
 	kmerindex.MinKmerLen = 2
-	c.Rule("parameters: every (k,n,e,offset) with k in {2,3,4}, n in k+2..8 (space A) / {9,12,16} with k=4 (space B), e in {0,1,2}, offset in max(e,1)..e+3 (space B also 8) and positive threshold n+1-k(e+1); space A: 6 fixed targets of length 8..12 x every query over {a,c,g,t} of length n..6 (thorough 7), every fifth pair also over a case-insensitive alphabet declared in upper case (upper-case sequences) and a case-sensitive alphabet of the caller's own, plus self comparison of every sequence of length <=7 (thorough 8); space B (tube geometry): a 40-letter target over {a,c,g} with all 4-mers distinct, queries of length 100 (all 't' background, sharing no k-mer with the target) so that the circular tube array is recycled, a copy of target[t0:t0+n] planted at EVERY (t0,q0) with every substitution pattern of <=e positions (quick: exact, all single positions, pairs at 3 spacings); space F (reuse): the space-B plants filtered by a Filter value that has already filtered a query carrying a copy of the first k, k+1, n-1 or n letters of the same window 0, +3, -3, +offset positions away or in the same slot of the tube ring one or two turns later (thorough: at every position); space H (long queries): queries of 2^j+40 letters (j=8..11, thorough 12) with a plant at every position around every power of two, exact and with a substitution at either end, the oracle restricted to the windows near the plant; space G (a failed call before): as F, but the earlier call is given a sorter that refuses its first hit - the full copy of the window at the start of its query - and so returns early while the tubes of a partial copy, g positions later at the place of the later plant, are open; space D: k in {2,3}, n in {k,k+1,k+3}, e<=1, offset in {1,2,3,6} on targets of 17/30 and queries of 50/83 letters (query much longer than the target, threshold as low as 1) with a plant at every (t0,q0); space E: a plant at every (t0,q0) plus one stray copy of a word from the first e+1 target positions at every other query position (two-site geometry of the tube ring); space C: PALS-like parameters (k=6,n=30,e=2,offset=16; thorough also (8,50,4,36), (6,30,2,3), (5,20,1,8)) on targets of 90..200 and queries of 260..420 letters with a plant at every (t0,q0) (quick: thinned away from the ends) and substitutions at every third position; oracle: brute force over every pair of length-n windows with Hamming distance <=e (self: q0>t0): some pushed filter.Hit h must satisfy -h.Diagonal <= q0-t0 <= -h.Diagonal+offset+e-1 and [h.From,h.To) must meet [q0,q0+n); hits are read back through a real in-memory morass; non-trivial = runs with at least one epsilon-match")
+	c.Rule("parameters: every (k,n,e,offset) with k in {2,3,4}, n in k+2..8 (space A) / {9,12,16} with k=4 (space B), e in {0,1,2}, offset in max(e,1)..e+3 (space B also 8) and positive threshold n+1-k(e+1); space A: 6 fixed targets of length 8..12 x every query over {a,c,g,t} of length n..6 (thorough 7), every fifth pair also over a case-insensitive alphabet declared in upper case (upper-case sequences) and a case-sensitive alphabet of the caller's own, plus self comparison of every sequence of length <=7 (thorough 8); space B (tube geometry): a 40-letter target over {a,c,g} with all 4-mers distinct, queries of length 100 (all 't' background, sharing no k-mer with the target) so that the circular tube array is recycled, a copy of target[t0:t0+n] planted at EVERY (t0,q0) with every substitution pattern of <=e positions (quick: exact, all single positions, pairs at 3 spacings); space F (reuse): the space-B plants filtered by a Filter value that has already filtered a query carrying a copy of the first k, k+1, n-1 or n letters of the same window 0, +3, -3, +offset positions away or in the same slot of the tube ring one or two turns later (thorough: at every position); space H (long queries): queries of 2^j+40 letters (j=8..11, thorough 12) with a plant at every position around every power of two, exact and with a substitution at either end, the oracle restricted to the windows near the plant, and for a third of the parameter sets an exact plant at every position of a query of 2600 letters; space G (a failed call before): as F, but the earlier call is given a sorter that refuses its first hit - the full copy of the window at the start of its query - and so returns early while the tubes of a partial copy, g positions later at the place of the later plant, are open; space D: k in {2,3}, n in {k,k+1,k+3}, e<=1, offset in {1,2,3,6} on targets of 17/30 and queries of 50/83 letters (query much longer than the target, threshold as low as 1) with a plant at every (t0,q0); space E: a plant at every (t0,q0) plus one stray copy of a word from the first e+1 target positions at every other query position (two-site geometry of the tube ring); space C: PALS-like parameters (k=6,n=30,e=2,offset=16; thorough also (8,50,4,36), (6,30,2,3), (5,20,1,8)) on targets of 90..200 and queries of 260..420 letters with a plant at every (t0,q0) (quick: thinned away from the ends) and substitutions at every third position; oracle: brute force over every pair of length-n windows with Hamming distance <=e (self: q0>t0): some pushed filter.Hit h must satisfy -h.Diagonal <= q0-t0 <= -h.Diagonal+offset+e-1 and [h.From,h.To) must meet [q0,q0+n); hits are read back through a real in-memory morass; non-trivial = runs with at least one epsilon-match")
 	c.Assume("kmerindex.MinKmerLen is lowered to 2 by the harness so that small k keep the spaces small", "sequences are over a,c,g,t only")
 	work := os.Getenv("VERIF_WORK")
 	if work == "" {
@@ -533,6 +533,18 @@ func run(c *enum.Ctx) {
 		topJ := 11
 		if !c.Quick {
 			topJ = 12
+		}
+		if ji%3 == 0 {
+			// an exact plant at EVERY position of a query of 2600 letters (cut-offs need not be round numbers)
+			ql := 2600
+			bg := strings.Repeat("t", ql)
+			for q0 := 0; q0+p.N <= ql; q0++ {
+				k := kase{K: p.K, N: p.N, E: p.E, Off: p.Off, Target: target, Query: bg[:q0] + target[j.t0:j.t0+p.N] + bg[q0+p.N:], Near: q0 + 1}
+				c.Eval()
+				if check(c, r, k) {
+					nt.AddH(enum.Hash64(fmt.Sprint("H*", p, j.t0, q0)))
+				}
+			}
 		}
 		for jx := 8; jx <= topJ; jx++ {
 			ql := 1<<uint(jx) + 40
